@@ -412,6 +412,37 @@ theorem C03_shape_uses_scope_viewport (cfg : Cfg K) (f : Frame K) (vals : Vals K
   repeat' split
   all_goals simp
 
+/-- **The viewport piece is the §8.2 transform, and the viewBox becomes the viewport.** For an svg
+    element whose viewBox has its four numbers `vx vy vw vh` (vw, vh ≠ 0) and whose x, y, width,
+    height resolve to the numbers `ex ey ew eh` (ew, eh ≠ 0): the scope it establishes carries the
+    parent's transform followed by exactly one generated piece, the matrix
+    `viewboxMatrix (ex ey ew eh) (vx vy vw vh) preserveAspectRatio` (which C11 proves to be the SVG 2
+    §8.2 equivalent transform), and its content is rendered against a viewport of `vw × vh`. -/
+theorem C03_viewport_piece (cfg : Cfg K) (n : Bool) (vals : Vals K) (w h : Dim K) (vb : VBox K)
+    (vx vy vw vh ex ey ew eh : K)
+    (hvb : (Dict.get vals.d "viewBox").map (parseViewbox cfg) = some vb)
+    (h1 : vb.x = some vx) (h2 : vb.y = some vy) (h3 : vb.w = some vw) (h4 : vb.h = some vh)
+    (hw : w ≠ none) (hh : h ≠ none)
+    (hsx : lenOf cfg vals.d "x" ⟨0, .none_⟩ w (some (vw, vh)) = .num ex)
+    (hsy : lenOf cfg vals.d "y" ⟨0, .none_⟩ h (some (vw, vh)) = .num ey)
+    (hsw : lenOf cfg vals.d "width" ⟨((100 : Nat) : K), .pct⟩ w (some (vw, vh)) = .num ew)
+    (hsh : lenOf cfg vals.d "height" ⟨((100 : Nat) : K), .pct⟩ h (some (vw, vh)) = .num eh)
+    (hew : (ew == 0) = false) (heh : (eh == 0) = false) (hvw : (vw == 0) = false) (hvh : (vh == 0) = false) :
+    ∃ v, svgEnter cfg n vals w h = .ok v (some (.num vw)) (some (.num vh)) ∧
+      pieces v = pieces vals ++ [TfPiece.mat (viewboxMatrix ⟨ex, ey, ew, eh⟩ ⟨vx, vy, vw, vh⟩
+        (Aspect.ofAttr ((Dict.get vals.d "preserveAspectRatio").map String.toList)))] := by
+  obtain ⟨w0, rfl⟩ := Option.ne_none_iff_exists'.mp hw
+  obtain ⟨h0, rfl⟩ := Option.ne_none_iff_exists'.mp hh
+  refine ⟨{ d := ["x", "y", "width", "height"].foldl Dict.erase vals.d,
+            tf := some ((vals.tf.getD []) ++ [TfPiece.mat (viewboxMatrix ⟨ex, ey, ew, eh⟩ ⟨vx, vy, vw, vh⟩
+              (Aspect.ofAttr ((Dict.get vals.d "preserveAspectRatio").map String.toList)))]),
+            vt := some ((vals.tf.getD []) ++ [TfPiece.mat (viewboxMatrix ⟨ex, ey, ew, eh⟩ ⟨vx, vy, vw, vh⟩
+              (Aspect.ofAttr ((Dict.get vals.d "preserveAspectRatio").map String.toList)))]) }, ?_, ?_⟩
+  · unfold svgEnter
+    simp only [hvb, h1, h2, h3, h4, Option.isSome_some, Bool.and_self, if_true, hsx, hsy, hsw, hsh, dimIsZero,
+      hew, heh, hvw, hvh, Bool.or_self, Bool.false_eq_true, if_false]
+  · simp [pieces]
+
 /-- **svg geometry is not inherited.** The scope an `svg` element establishes has no
     `x`, `y`, `width` or `height`: a descendant that omits one of them gets its own default, not
     the svg's value (the defect repaired by 19b07e0). -/
